@@ -1,10 +1,10 @@
 #!/bin/bash
 # usage: verify_seed.sh <Cxx> <k>   - confirm a seeded change from /tmp/wt_out/<Cxx>/<k> on a scratch worktree of /repo HEAD,
 # and store it under /verif/seeded/<Cxx>_<k>/ (patch rebased on HEAD, demo, meta.json).  Removes the worktree afterwards.
-C=$1; K=$2; SRC=/tmp/wt_out/$C/$K; W=/tmp/seedchk_${C}_$K; OUT=/verif/seeded/${C}_$K
+C=$1; K=$2; KO=${3:-$2}; SRC=${SEEDSRC:-/tmp/wt_out}/$C/$K; W=/tmp/seedchk_${C}_$KO; OUT=/verif/seeded/${C}_$KO
 rm -rf $W; git -C /repo worktree add --detach $W HEAD -q || exit 2
 cp /repo/config.h $W/
-res() { echo "$C/$K: $1"; git -C /repo worktree remove --force $W; rm -rf /tmp/seedbuild_${C}_$K*; exit ${2:-1}; }
+res() { echo "$C/$KO: $1"; git -C /repo worktree remove --force $W; rm -rf /tmp/seedbuild_${C}_$K*; exit ${2:-1}; }
 B0=/tmp/seedbuild_${C}_${K}_orig; B1=/tmp/seedbuild_${C}_${K}_mut
 EXTRA_CFLAGS="-fsanitize=address,undefined" /verif/tools/native_build_and_test.sh $W $B0 >/dev/null 2>&1 || res "baseline build/tests fail"
 gcc -g -fsanitize=address,undefined -I$W/src $SRC/demo.c $B0/libconfuse.a -o $B0/demo 2>/dev/null || res "demo does not compile"
